@@ -2,6 +2,7 @@
   C13 — any sequence of API calls behaves like the documented state machine (property theorems).
 -/
 import Gmars.Proofs.Abs
+import Gmars.Proofs.ApiWF
 
 namespace Gmars.Props.C13
 open Gmars
@@ -41,6 +42,35 @@ theorem runCycle_finished (s : Sim) (h : s.finished = true) : s.runCycle = .ok (
 /-- running a finished, empty or never-started battle returns at once, state unchanged -/
 theorem run_finished (s : Sim) (fuel : Nat) (h : s.finished = true) : s.runLoop (fuel + 1) = .ok (s, true) := by
   simp [Sim.runLoop, h]
+
+/-- `api_no_panic`: no sequence of add / spawn (any index, any offset) / RunCycle / Run / Reset
+    calls panics, from any accepted configuration; the invariant holds after every call -/
+theorem api_no_panic {c : Config} {s0 : Sim} {ops : List ApiOp} (hv : c.validate = true)
+    (hnew : Sim.new c = some s0)
+    (hops : ∀ op ∈ ops, match op with
+      | .add d => ∀ x ∈ d.code.toList, x.a < c.coreSize ∧ x.b < c.coreSize
+      | _ => True) :
+    ∃ s, s0.applyOps ops = .ok s ∧ s.WF :=
+  let ⟨s, h, hwf, _⟩ := Gmars.wf_reachable hv hnew hops
+  ⟨s, h, hwf⟩
+
+/-- `Run()` always returns (the loop needs at most maxCycles+2 iterations) and ends in a
+    finished battle — including on an empty, never-started or already finished one -/
+theorem run_returns {s : Sim} (hwf : s.WF) (hc : s.CodeOK) :
+    ∃ s', s.runLoop (s.maxCycles.toNat + 2) = .ok (s', true) ∧ s'.WF ∧ s'.finished = true :=
+  let ⟨s', h, hwf', _, hf⟩ := run_terminates_wf hwf hc
+  ⟨s', h, hwf', hf⟩
+
+/-- SpawnWarrior never panics, whatever index and offset -/
+theorem spawn_total {s : Sim} {wi : Int} {off : UInt64} (hwf : s.WF) (hc : s.CodeOK) :
+    ∃ s' b, s.spawn wi off = .ok (s', b) ∧ s'.WF :=
+  let ⟨s', b, h, hwf', _⟩ := spawn_wf (wi := wi) (off := off) hwf hc
+  ⟨s', b, h, hwf'⟩
+
+/-- Reset keeps the invariant: cleared core, zero counters, every warrior back to `added` -/
+theorem reset_sound {s : Sim} (hwf : s.WF) (hc : s.CodeOK) : s.reset.WF ∧ s.reset.living = 0 ∧
+    s.reset.cycleCount = 0 :=
+  ⟨(reset_wf hwf hc).1, rfl, rfl⟩
 
 example : (Sim.new (Config.quick .icws94 8 2 5 1)).map (·.finished) = some true := by decide
 
